@@ -153,7 +153,7 @@ MomentTerms(pts_, wts_, fvals_, c_) ==
 \* dipole of a molecule: nuclei (charge z, position r: rationals, mass = variable MassNames[a]) and an
 \* electron density rho_g on quadrature points: sum_a Z_a (R_a - R_c) - sum_g w_g rho_g (p_g - R_c),
 \* R_c the centre of mass
-MassNames == <<"m1", "m2", "m3", "m4">>
+MassNames == <<"m1", "m2", "m3", "m4", "m5", "m6">>
 CentreOfMassTree(mol_, r_) ==
     Div(AddTo([a_ \in 1..Len(mol_) |-> Mul(V(MassNames[a_]), CQ(mol_[a_].r[r_]))], Len(mol_)),
         AddTo([a_ \in 1..Len(mol_) |-> V(MassNames[a_])], Len(mol_)))
